@@ -4,7 +4,8 @@
 (* A CASE is everything a user supplies on the way  describe/construct -> slice -> fit   *)
 (* -> compute, over abstract field domains:                                              *)
 (*   dims : one record per dimension (0-based index i0 = position - 1)                   *)
-(*          dist   in {"Ok", "Missing"}                    key 'distribution'            *)
+(*          dist   in {"Ok", "Missing", "None"}            key 'distribution' (None: the  *)
+(*                   mandatory key is present, its value is None)                        *)
 (*          cond   in {Absent, CondNone} \cup -1..n        key 'conditional_on'          *)
 (*          params in {"Absent", "Exact", "MissingOne", "UnknownName",                   *)
 (*                     "FixedAndDependent", "DepUnknownParam", "DepMisspeltOption"}      *)
@@ -117,7 +118,7 @@ Stage(c) ==
 NonFiniteArgs == {"PdfNaN", "PdfInf", "CdfNaN", "CdfInf", "MpdfNaN", "MpdfInf", "McdfNaN", "McdfInf", "MicdfNaN",
                   "MicdfInf", "CcdfNaN", "CcdfInf", "CcdfGivenNaN", "CcdfGivenInf", "CicdfNaN", "CicdfInf",
                   "CicdfGivenNaN", "CicdfGivenInf", "TpdfNaN", "TpdfInf"}
-FitAtNames == {"MissingMethod", "UnknownMethod", "UnknownWeights", "UnknownKey", "UnknownKeyPlus"}
+FitAtNames == {"MissingMethod", "MethodNone", "UnknownMethod", "UnknownWeights", "UnknownKey", "UnknownKeyPlus"}
 InDomain(c) ==
     /\ \A i \in 1..c.n : c.dims[i].cond = CondNone => c.dims[i].params # "Absent"
     \* an all-fixed carrier only where the fit description of that (unconditional) dimension is
@@ -161,7 +162,8 @@ SingleOnly == PointNames \cup SurplusNames \cup {"DataNdim3", "CondNoneParams"} 
 
 Malformations(b) ==
     LET n == Len(Bases[b]) D == 0..(n - 1) IN
-      {M("NoDistribution", i) : i \in D} \cup {M("ExtraKey", i) : i \in D}
+      {M("NoDistribution", i) : i \in D} \cup {M("ExtraKey", i) : i \in D} \cup {M("DistributionNone", i) : i \in D}
+      \cup {M("FitMethodNone", i) : i \in D}
       \cup {M(nm, i) : nm \in ParamNames, i \in {k \in D : Bases[b][k + 1] # Absent}}
       \cup {M(nm, i) : nm \in UncondParamNames \cup {"CondNoneParams"}, i \in {k \in D : Bases[b][k + 1] = Absent}}
       \cup {M(nm, i) : nm \in PointNames, i \in D} \cup {M(nm, 0) : nm \in SurplusNames}
@@ -181,13 +183,13 @@ Malformations(b) ==
 
 (* the field a malformation writes: two malformations of the same field are not combined *)
 Field(m) ==
-    CASE m.name = "NoDistribution" -> <<"dist", m.pos>>
+    CASE m.name \in {"NoDistribution", "DistributionNone"} -> <<"dist", m.pos>>
       [] m.name = "ExtraKey"       -> <<"extra", m.pos>>
       [] m.name \in CondNames \cup {"CondNoneParams"} -> <<"cond", m.pos>>
       [] m.name \in ParamNames \cup UncondParamNames -> <<"params", m.pos>>
       [] m.name \in SlicerNames    -> <<"slicer", m.pos>>
       [] m.name \in {"FitTooShort", "FitTooLong", "FitMissingMethod", "FitUnknownMethod",
-                     "FitUnknownWeights", "FitUnknownKey", "FitUnknownKeyPlus"} -> <<"fit", 0>>
+                     "FitUnknownWeights", "FitUnknownKey", "FitUnknownKeyPlus", "FitMethodNone"} -> <<"fit", 0>>
       [] m.name \in {"DataTooFewCols", "DataTooManyCols", "DataOneDim", "DataNdim3"} -> <<"data", 0>>
       [] OTHER -> <<"op", 0>>
 
@@ -213,6 +215,8 @@ SetCond(c, i, v) ==
 ApplyOne(c, m) ==
     LET i == m.pos + 1 IN
     CASE m.name = "NoDistribution"   -> [c EXCEPT !.dims[i].dist = "Missing"]
+      [] m.name = "DistributionNone" -> [c EXCEPT !.dims[i].dist = "None"]
+      [] m.name = "FitMethodNone"    -> [c EXCEPT !.fit = [kind |-> "MethodNone", pos |-> m.pos]]
       [] m.name = "ExtraKey"         -> [c EXCEPT !.dims[i].extra = TRUE]
       [] m.name = "CondNoParams"     -> [c EXCEPT !.dims[i].params = "Absent"]
       [] m.name = "ParamMissingOne"  -> [c EXCEPT !.dims[i].params = "MissingOne"]
@@ -260,7 +264,7 @@ AllNames == <<"CondSelf", "CondLater", "CondNonexistent", "CondNegative", "First
               "TpdfSurplus", "MpdfNaN", "MpdfInf", "McdfNaN", "McdfInf", "MicdfNaN", "MicdfInf", "CcdfNaN",
               "CcdfInf", "CcdfGivenNaN", "CcdfGivenInf", "CicdfNaN", "CicdfInf", "CicdfGivenNaN",
               "CicdfGivenInf", "TpdfNaN", "TpdfInf", "FitUnknownKey", "FitUnknownKeyPlus",
-              "ParamDepUnknownParam", "ParamDepMisspeltOption">>
+              "ParamDepUnknownParam", "ParamDepMisspeltOption", "DistributionNone", "FitMethodNone">>
 Idx(name) == CHOOSE k \in 1..Len(AllNames) : AllNames[k] = name
 Key(m) == IF m.name = "CondNoneParams" THEN m.pos ELSE 10 * Idx(m.name) + m.pos   \* cond-type first
 
@@ -325,6 +329,7 @@ ConstructExc(c, hc, sc) ==
     ELSE IF \E i \in 1..c.n :                                                  \* _check_dist_descriptions
               LET dm == c.dims[i] IN
                 \/ dm.dist = "Missing"
+                \/ (dm.dist = "None" /\ sc # "noneaccepted")       \* a mandatory key whose value is None
                 \/ (IsCond(dm) /\ dm.params = "Absent")
                 \/ (sc # "paramsignored" /\ ~IsCond(dm) /\ dm.params # "Absent")
                 \/ (hc /\ i > 1 /\ IsCond(dm) /\ ~HierarchyOk(i - 1, dm.cond))
@@ -350,6 +355,8 @@ SliceExc(c, sc) ==
 (* made when the sample has to be drawn                                                     *)
 FitExc(c, sc) ==
     IF FitOk(c) THEN "none"
+    ELSE IF sc = "noneaccepted" /\ c.data = "Ok" /\ c.fit.kind = "MethodNone"
+            /\ IsCond(c.dims[c.fit.pos + 1]) THEN "none"      \* (was fitted as mle at conditional positions)
     ELSE IF sc = "fitkeyignored" /\ c.data = "Ok" /\ c.fit.kind \in {"UnknownKey", "UnknownKeyPlus"} THEN "none"
     ELSE IF sc = "allfixed" /\ c.data = "Ok" /\ c.fit.kind \in {"UnknownMethod", "UnknownWeights"}
             /\ c.ctx.fixed = c.fit.pos THEN "none"
